@@ -1,15 +1,127 @@
-import TomlVerif.Model.Doc
-/-! # C05 — nesting is bounded so no document can exhaust the stack -/
+import TomlVerif.Lemmas.Depth05
+import TomlVerif.Lemmas.ValEq
+/-! # C05 — nesting is bounded, so no document can exhaust the stack
+
+`value fuel d s` is the value parser at recursion depth `d` (`RecursionCheck.current`); `LIMIT = 80`.
+`nest v` is the nesting depth of a decoded value: arrays, inline tables and the tables created by
+dotted keys inside inline tables each count one level. -/
 namespace TomlVerif.Props.C05
-open TomlVerif TomlVerif.Model TomlVerif.Model.Value
+open TomlVerif TomlVerif.Spec TomlVerif.Model TomlVerif.Model.Value TomlVerif.Lemmas.Depth05
+open TomlVerif.Lemmas.ValEq
 
-/-- an array or inline table is never entered at or beyond the recursion limit -/
-theorem T05_array_guard (fuel d : Nat) (r : Bytes) (h : LIMIT ≤ d + 1) : value (fuel + 1) d (0x5B :: r) = .cut := by
-  unfold value
-  simp [h]
+/-- a dotted key that is accepted has at least one and fewer than `LIMIT` components -/
+theorem T05_keypath_len (s : Bytes) (ks : List Bytes) (r : Bytes) (h : keyPath s = .ok ks r) :
+    ks ≠ [] ∧ ks.length < LIMIT := keyPath_len s ks r h
 
-theorem T05_inline_guard (fuel d : Nat) (r : Bytes) (h : LIMIT ≤ d + 1) : value (fuel + 1) d (0x7B :: r) = .cut := by
-  unfold value
-  simp [h]
+/-- non-vacuity: `a . b.c =` -/
+example : keyPath [0x61, 0x20, 0x2E, 0x20, 0x62, 0x2E, 0x63, 0x20, 0x3D] = .ok [[0x61], [0x62], [0x63]] [0x3D] := by
+  decide
+
+/-- the assembled inline table: if every pair `(path, key, v)` has `path.length + nest v ≤ B`, the table
+    nests at most `B + 1` deep -/
+theorem T05_tableFromPairs (B : Nat) (kvs : List (List Bytes × Bytes × Val)) (items : List (Bytes × Val))
+    (imp dot : Bool) (h : tableFromPairs kvs [] = some items) (hp : ∀ p ∈ kvs, p.1.length + nest p.2.2 ≤ B) :
+    nest (.inl items imp dot) ≤ B + 1 := by
+  have := nestPairs_tableFromPairs B kvs [] items h (by simp [nestPairs]) hp
+  simp only [nest]; omega
+
+/-- non-vacuity: `{a.b = [1], a.c = 2}` assembles to a table of depth 3 = (1 + 1) + 1 -/
+example : tableFromPairs [([[0x61]], [0x62], .arr [.int 1]), ([[0x61]], [0x63], .int 2)] [] =
+      some [([0x61], .inl [([0x62], .arr [.int 1]), ([0x63], .int 2)] true true)] ∧
+    nest (.inl [([0x61], .inl [([0x62], .arr [.int 1]), ([0x63], .int 2)] true true)] false false) = 3 :=
+  ⟨someLIs_sound _ _ (by decide +kernel), by decide⟩
+
+/-- The statement as first requested, without `d < LIMIT`, is false: a scalar is accepted at any depth
+    (`value 1 100 "true"` succeeds).  The parser is entered at depth 0 and only ever calls itself at a
+    depth it has just checked, so `d < LIMIT` holds at every call. -/
+def T05_value_depth_unrestricted : Prop :=
+  ∀ fuel d s v rest, value fuel d s = .ok v rest → d + nest v < LIMIT
+
+theorem T05_value_depth_unrestricted_false : ¬ T05_value_depth_unrestricted := by
+  intro h
+  have := h 1 100 [0x74, 0x72, 0x75, 0x65] (.bool true) [] (okIs_sound _ _ _ (by decide +kernel))
+  simp [nest, LIMIT] at this
+
+/-- every accepted value, whatever mix of arrays, inline tables and dotted keys it is built from,
+    nests strictly less than the limit below the depth it was parsed at -/
+theorem T05_value_depth (fuel d : Nat) (s : Bytes) (v : Val) (rest : Bytes) (hd : d < LIMIT)
+    (h : value fuel d s = .ok v rest) : d + nest v < LIMIT :=
+  (depthInv fuel).1 d s v rest h hd
+
+/-- in particular a value parsed from the top nests less than `LIMIT` -/
+theorem T05_parseValue_depth (s : Bytes) (v : Val) (h : parseValue s = some v) : nest v < LIMIT := by
+  unfold parseValue at h
+  split at h
+  · rename_i v' hv
+    injection h with h; subst h
+    have := T05_value_depth _ 0 s v' [] (by decide) hv
+    omega
+  · cases h
+
+/-- non-vacuity: `[{a.b=[1]}]` is accepted and nests 4 deep -/
+example : value 40 0 [0x5B, 0x7B, 0x61, 0x2E, 0x62, 0x3D, 0x5B, 0x31, 0x5D, 0x7D, 0x5D] =
+      .ok (.arr [.inl [([0x61], .inl [([0x62], .arr [.int 1])] true true)] false false]) [] ∧
+    nest (.arr [.inl [([0x61], .inl [([0x62], .arr [.int 1])] true true)] false false]) = 4 :=
+  ⟨okIs_sound _ _ _ (by decide +kernel), by decide⟩
+
+example : parseValue [0x5B, 0x7B, 0x61, 0x2E, 0x62, 0x3D, 0x5B, 0x31, 0x5D, 0x7D, 0x5D] =
+    some (.arr [.inl [([0x61], .inl [([0x62], .arr [.int 1])] true true)] false false]) :=
+  someIs_sound _ _ (by decide +kernel)
+
+/-- arrays nested below the limit are still accepted: `[`ⁿ⁺¹ `]`ⁿ⁺¹ with `n + 1 < LIMIT` brackets
+    decodes to `n + 1` nested arrays (fuel `3 n + 2` is enough; `parseValue` gives `6 n + 10`) -/
+theorem T05_accepts_arrays (n fuel : Nat) (rest : Bytes) (hn : n + 1 < LIMIT) (hf : 3 * n + 2 ≤ fuel) :
+    value fuel 0 (List.replicate (n + 1) 0x5B ++ (List.replicate (n + 1) 0x5D ++ rest)) = .ok (nestedArr n) rest :=
+  arrays_accepted n 0 fuel rest (by omega) hf
+
+theorem T05_accepts_arrays_parseValue (n : Nat) (hn : n + 1 < LIMIT) :
+    parseValue (List.replicate (n + 1) 0x5B ++ List.replicate (n + 1) 0x5D) = some (nestedArr n) := by
+  have := T05_accepts_arrays n (3 * (List.replicate (n + 1) (0x5B : UInt8) ++ List.replicate (n + 1) 0x5D).length + 4) []
+    hn (by simp; omega)
+  simp only [List.append_nil] at this
+  unfold parseValue
+  rw [this]
+
+/-- the same in the form "`n` brackets, fuel `3 * (2 * n) + 40`": accepted for every `1 ≤ n < LIMIT`
+    (so 79 brackets are accepted; the first rejected count is `LIMIT` = 80) -/
+theorem T05_accepts_arrays' (n : Nat) (h1 : 1 ≤ n) (hn : n < LIMIT) :
+    value (3 * (2 * n) + 40) 0 (List.replicate n 0x5B ++ List.replicate n 0x5D) = .ok (nestedArr (n - 1)) [] := by
+  obtain ⟨m, rfl⟩ : ∃ m, n = m + 1 := ⟨n - 1, by omega⟩
+  have := T05_accepts_arrays m (3 * (2 * (m + 1)) + 40) [] (by omega) (by omega)
+  simpa using this
+
+theorem T05_nest_nestedArr (n : Nat) : nest (nestedArr n) = n + 1 := nest_nestedArr n
+
+/-- `LIMIT` or more opening brackets are rejected with a non-recoverable error, whatever follows and
+    whatever the fuel: the 79 brackets of `T05_accepts_arrays` are the most that can be accepted -/
+theorem T05_rejects_arrays_at_limit (n fuel : Nat) (rest : Bytes) (hn : LIMIT ≤ n) :
+    value fuel 0 (List.replicate n 0x5B ++ rest) = .cut :=
+  arrays_rejected n 0 fuel rest (by simp [LIMIT] at hn; omega) (by omega)
+
+/-- inline tables `{a={a=…{}…}}` with `n + 1 < LIMIT` tables are accepted -/
+theorem T05_accepts_inline (n fuel : Nat) (rest : Bytes) (hn : n + 1 < LIMIT) (hf : 2 * n + 2 ≤ fuel) :
+    value fuel 0 (inlText n ++ rest) = .ok (nestedInl n) rest :=
+  inls_accepted n 0 fuel rest (by omega) hf
+
+theorem T05_nest_nestedInl (n : Nat) : nest (nestedInl n) = n + 1 := nest_nestedInl n
+
+/-- `LIMIT` or more nested inline tables are rejected: `{a=`ⁿ `{` with `LIMIT ≤ n + 1`, whatever follows -/
+theorem T05_rejects_inline_at_limit (n fuel : Nat) (rest : Bytes) (hn : LIMIT ≤ n + 1) :
+    value fuel 0 (inlOpen n ++ 0x7B :: rest) = .cut :=
+  inls_rejected n 0 fuel rest (by omega)
+
+/-- the text of `T05_accepts_inline` one level deeper is of that form -/
+theorem T05_rejects_inlText (n fuel : Nat) (rest : Bytes) (hn : LIMIT ≤ n + 1) :
+    value fuel 0 (inlText n ++ rest) = .cut := by
+  rw [inlText_eq, List.append_assoc]
+  exact T05_rejects_inline_at_limit n fuel _ hn
+
+/-- the boundary instances: 79 brackets / tables are accepted, 80 are rejected -/
+example : value 300 0 (List.replicate 79 0x5B ++ (List.replicate 79 0x5D ++ [])) = .ok (nestedArr 78) [] :=
+  T05_accepts_arrays 78 300 [] (by decide) (by decide)
+example : value 300 0 (List.replicate 80 0x5B ++ List.replicate 80 0x5D) = .cut :=
+  T05_rejects_arrays_at_limit 80 300 _ (by decide)
+example : value 300 0 (inlText 78 ++ []) = .ok (nestedInl 78) [] := T05_accepts_inline 78 300 [] (by decide) (by decide)
+example : value 300 0 (inlText 79 ++ []) = .cut := T05_rejects_inlText 79 300 [] (by decide)
 
 end TomlVerif.Props.C05
